@@ -320,6 +320,10 @@ def run_rx(pid, tier, rep, deadline_s):
                     'samples': tot['samples'][:8] or [{'note': 'see counters'}], 'evaluations': ev, 'distinct_nontrivial': nontriv, 'rule': RX_RULE[pid],
                     'exhaustive': exhaustive, 'bounds': bounds, 'distinct_outcomes': sorted(tot['outcomes'])[:80], 'n_distinct_outcomes': len(tot['outcomes']), 'counters': c,
                     'what_states_and_transitions_are': {'C03': 'states = reachable (real DFA state, reference DFA state) pairs; transitions = pair edges over all 256 bytes + real dfa_match runs', 'C04': 'states = reachable (lexer state, per-term reference states) product states; transitions = real parses', 'C10': 'states = (term set, grammar) configurations; transitions = real parses', 'C17': 'states = candidate pattern strings; transitions = real pattern-parser runs (two contexts each)', 'C12': 'states = DFA states built by the real builder; transitions = size predictions compared'}[pid]}
+    if pid == 'C03':
+        nconf, probs = rx_conformance(tier, exe)
+        for pr in probs: rep.add({'kind': 'constexpr-path-differs', 'known': '', 'engine': 'rx', 'summary': pr})
+        rep.coverage['traces_validated_against_impl'] += nconf; rep.coverage['constexpr_conformance_replays'] = nconf
     rep.assumptions = ['patterns reach the real front-end through string_view_buffer / a checked user buffer instead of cstring_buffer, and dfa_builder<N> with a large fixed N instead of the predicted size (bound to the user-visible path by the compile-time conformance replays)',
                        'reference regex semantics: /verif/ref/regex.hpp (two independent matchers cross-checked on every short string)']
 
@@ -609,6 +613,58 @@ def run_c08(pid, tier, rep, deadline_s):
     rep.coverage = merge_cov(cov, {'states': totals['cases'], 'transitions': totals['checks'], 'traces_validated_against_impl': totals['cases'], 'samples': samples, 'evaluations': totals['cases'], 'distinct_nontrivial': extra.get('recovered', 0) + extra.get('recovery_failed', 0), 'bounds': bounds,
                                    'exhaustive': all(b['completed'] for b in bounds), 'counters': extra, 'rule': 'Compiled part: four ordinary DSL grammars with error rules on every input up to the bound over their terminals, space and a foreign byte; result, value tree and every message (with position) must equal the documented driver + recovery on a reference LR(1) table.'})
 
+def run_c02(pid, tier, rep, deadline_s):
+    q = tier == 'quick'
+    run_gram(pid, tier, rep, deadline_s); cov = dict(rep.coverage)
+    totals, samples, bounds, extra = run_progs(pid, rep, [dict(name='c02v', src='c02_values.cpp', args=[4 if q else 6], compilers=['g++'] if q else ['g++', 'clang++'], label='rules without functor (0-3 children of distinct types), typed term, helper functors; inputs<=%d over 9 bytes' % (4 if q else 6))], deadline_s)
+    rep.coverage = merge_cov(cov, {'states': totals['cases'], 'transitions': totals['checks'], 'traces_validated_against_impl': totals['cases'], 'samples': samples, 'evaluations': totals['cases'], 'distinct_nontrivial': extra.get('accepted', 0), 'bounds': bounds,
+                                   'exhaustive': all(b['completed'] for b in bounds), 'rule': 'Compiled part: a grammar whose rules have no functor (left-side value constructed from 0, 1, 2 and 3 right-side values of distinct types), a typed term and helper functors, on every input up to the bound; value and construction order are compared with an independent recursive-descent evaluator.'})
+
+def rx_conformance(tier, exe):
+    """DESIGN 1.6, second bullet: every pattern up to K nodes as `constexpr regex::expr<P>` (cstring_buffer, dfa_builder<dfa_size>, constant
+    evaluation, g++ and clang++); the dumped automaton and dfa_size must equal what the run-time driven builder produced."""
+    gen = os.path.join(VERIF, 'gen', 'rxct_gen.py'); K, pool = ('3', '2') if tier == 'quick' else ('3', '0')
+    d = common.build_dir('rxct_' + tier, [gen, os.path.join(VERIF, 'engines', 'dfa_dump.hpp'), os.path.join(VERIF, 'engines', 'rx_main.cpp')], [K, pool])
+    outf = os.path.join(d, 'ct.txt')
+    problems = []
+    if not os.path.exists(outf):
+        tmp = d + '.tmp%d' % os.getpid(); shutil.rmtree(tmp, ignore_errors=True); os.makedirs(tmp)
+        pats = os.path.join(tmp, 'pats.txt'); open(pats, 'w').write(sh([exe, '--mode', 'list-patterns', '--K', K, '--pool', pool]).stdout)
+        ntus = 8 if tier == 'quick' else 32
+        sh([sys.executable, gen, pats, tmp, str(ntus)])
+        text = ''
+        from concurrent.futures import ThreadPoolExecutor
+        def one(k):
+            src = os.path.join(tmp, 'rxct_%02d.cpp' % k); exe2 = src[:-4]; comp = 'g++' if k % 2 == 0 else 'clang++'
+            flags = ['-std=c++17', '-O0', '-fno-access-control', '-I' + os.path.join(REPO, 'include'), '-I' + os.path.join(VERIF, 'engines')] + (['-fconstexpr-ops-limit=2000000000'] if comp == 'g++' else ['-fconstexpr-steps=400000000'])
+            r = sh([comp] + flags + [src, '-o', exe2])
+            if r.returncode != 0:
+                lm = json.load(open(src[:-4] + '.map.json')); bad = set()
+                for l in (r.stdout + r.stderr).splitlines():
+                    mm = re.match(r'.*rxct_%02d\.cpp:(\d+):\d+: error' % k, l)
+                    if mm and mm.group(1) in lm: bad.add(lm[mm.group(1)])
+                return ('', ['constexpr regex::expr<%r> does not compile with %s' % (b, comp) for b in sorted(bad)[:3]] or ['conformance unit %d does not compile with %s: %s' % (k, comp, (r.stdout + r.stderr)[-300:])])
+            return (sh([exe2], timeout=300).stdout, [])
+        with ThreadPoolExecutor(max_workers=NCPU) as ex: res = list(ex.map(one, range(ntus)))
+        for t, pr in res: text += t; problems += pr
+        if problems: shutil.rmtree(tmp, ignore_errors=True); return 0, problems
+        open(os.path.join(tmp, 'ct.txt'), 'w').write(text)
+        for f in glob.glob(os.path.join(tmp, 'rxct_??')) + glob.glob(os.path.join(tmp, 'rxct_??.cpp')): os.remove(f)
+        if os.path.exists(d): shutil.rmtree(tmp, ignore_errors=True)
+        else: os.rename(tmp, d)
+    rt = sh([exe, '--mode', 'dump-patterns', '--K', K, '--pool', pool]).stdout
+    def blocks(t):
+        b = {}; cur = None
+        for l in t.splitlines():
+            if l.startswith('### '): cur = l[4:]; b[cur] = []
+            elif cur is not None: b[cur].append(l)
+        return b
+    A, B = blocks(open(outf).read()), blocks(rt)
+    for k in A:
+        if k in B and A[k] != B[k]: problems.append('pattern %r: the automaton built in constant evaluation (cstring_buffer, dfa_builder<dfa_size>) differs from the run-time built one' % k)
+    if set(A) != set(B): problems.append('pattern lists differ (%d vs %d)' % (len(A), len(B)))
+    return len(A), problems[:5]
+
 # ----------------------------------------------------------------------------- dispatch
 QUICK_DEADLINE, THOROUGH_DEADLINE = 240, 1500
 
@@ -635,6 +691,7 @@ def main(argv):
         rep = Report(pid, tier)
         deadline = QUICK_DEADLINE if tier == 'quick' else THOROUGH_DEADLINE
         if pid == 'C08': run_c08(pid, tier, rep, deadline)
+        elif pid == 'C02': run_c02(pid, tier, rep, deadline)
         elif pid in GRAM_PROPS: run_gram(pid, tier, rep, deadline)
         elif pid == 'C17': run_c17(pid, tier, rep, deadline)
         elif pid in RX_PROPS: run_rx(pid, tier, rep, deadline)
